@@ -174,6 +174,10 @@ impl OutputFormat for IceDraw {
                 o += 1;
             }
             while rle_count > 0 {
+                if pos.y > u16::MAX as i32 {
+                    // IDF coordinates are 16 bit; RLE records (65535 cells in 6 bytes) must not run beyond them
+                    return Err(LoadingError::OutOfBounds.into());
+                }
                 result.layers[0].set_height(pos.y + 1);
                 result.set_height(pos.y + 1);
                 let attribute = TextAttribute::from_u8(attr, result.ice_mode);
